@@ -171,6 +171,20 @@ pub fn generate(tier: &str, seed: u64) -> Vec<Rec> {
             }
         }
     }
+    // power-of-two scaling with rounding (k < 0): exact ties and their neighbours, of both signs, in the vectorised part
+    // and in the scalar tail (13 = 3 lanes of 4 + 1); a rounding rule that differs only at x = -2^(|k|-1) shows here
+    for be in 0..=4i128 {
+        for kp in 1..=62u32 {
+            if tier != "thorough" && be != 0 && be != 2 && kp % 3 != 1 { continue; }
+            let h = 1i128 << (kp - 1);
+            let ties: Vec<i128> = vec![-h, h, -3 * h, 3 * h, -h + 1, -h - 1, h - 1, h + 1, -5 * h, 5 * h, 0, -1, -h];
+            let ties: Vec<i128> = ties.into_iter().map(|x| x.clamp(i64::MIN as i128, i64::MAX as i128)).collect();
+            for code in [8022i64, 8023, 8024] {
+                let vs = if code == 8024 { vec![vals(&mut rng, ties.len(), 40), ties.clone()] } else { vec![ties.clone()] };
+                out.push(Rec::new(code, vec![be, -(kp as i128)], vs));
+            }
+        }
+    }
     gen_vec(&mut rng, tier, &mut out);
     // i128 accumulators, radix 1, a carry above 2^64 crossing more than 64 missing limbs (the i128 routine propagates
     // through min(gap, 128) zero limbs, the i64 one through min(gap, 64))
